@@ -301,7 +301,13 @@ def forwards_to_method(obj, wrapped_name, *args, **kwargs):
         return
     wrapped = self
     for attr in wrapped_name.split('.'):
-        wrapped = getattr(wrapped, attr)
+        try:
+            wrapped = getattr(wrapped, attr)
+        except AttributeError:
+            # a declaration that cannot be honoured, like the others
+            raise ValueError(
+                '{0!r} forwards to {1!r}, which {2!r} does not have'
+                .format(obj, wrapped_name, self))
     return forwards(obj, wrapped, *args, **kwargs)
 
 
